@@ -101,14 +101,17 @@ def vertices (x h f v : Int) (northLat southLat : Dy) : List GeoPt :=
 def dyMin (l : List Dy) (d : Dy) : Dy := l.foldl (fun m x => if lt x m then x else m) d
 def dyMax (l : List Dy) (d : Dy) : Dy := l.foldl (fun m x => if lt m x then x else m) d
 
+/-- midpoint of the extreme values of one coordinate `g` over the eight vertices -/
+def centreMid (x h f v : Int) (northLat southLat : Dy) (g : GeoPt → Dy) : Dy :=
+  let ps := vertices x h f v northLat southLat
+  match ps with
+  | [] => zero
+  | p :: _ => div (add (dyMax (ps.map g) (g p)) (dyMin (ps.map g) (g p))) c2
+
 /-- `getCenterPointOnVoxelOffset`: midpoint of the extreme coordinates of the eight vertices -/
 def centre (x h f v : Int) (northLat southLat : Dy) : GeoPt :=
-  let ps := vertices x h f v northLat southLat
-  let mid (g : GeoPt → Dy) : Dy :=
-    match ps with
-    | [] => zero
-    | p :: _ => div (add (dyMax (ps.map g) (g p)) (dyMin (ps.map g) (g p))) c2
-  newPointLossy (mid (·.lon)) (mid (·.lat)) (mid (·.alt))
+  newPointLossy (centreMid x h f v northLat southLat (·.lon)) (centreMid x h f v northLat southLat (·.lat))
+    (centreMid x h f v northLat southLat (·.alt))
 
 /-- `shape.GetPointOnExtendedSpatialId(id, option)`: parse (five int64 fields), zoom check, option dispatch
 (0 = Vertex, 1 = Center, anything else is an option error) -/
